@@ -133,7 +133,10 @@ def run(pid, path, quiet=False):
             jk = dict(cfg['judge'])
             if pid == 'C06' or case.get('quant') == 'the':
                 jk['expected'] = props_q2.the_expected
-            judge = props_q.QueryJudge(report, findings, pid, **jk)
+            if pid in props_q2.REPLAY_JUDGES:
+                judge = props_q2.REPLAY_JUDGES[pid](report, findings)
+            else:
+                judge = props_q.QueryJudge(report, findings, pid, **jk)
             qcheck.run_query_cases(report, [case], cfg['opts'], judge)
             if 'rewritten' in payload:
                 rw = fix_case(payload['rewritten'])
